@@ -28,7 +28,7 @@ EXPLANATION = ("Symbolic type/subtype/suppress-list strings through the real _is
                "list, subtype (every MystWarnings member), append_to/line/node presence on both front ends (Sphinx env stubbed with a recording logger).")
 ASSUMPTIONS = ["warning type strings contain no '.' (catalogue types are 'myst' / 'ref')", "Sphinx's logging filter applies sphinx.util.logging.is_suppressed_warning to (type, subtype) of the record",
                "document-level comparisons run with doctitle_xform off: docutils' DocTitle promotion reacts to any system_message in front of the first section (docutils behaviour, not MyST's)"]
-OUTSIDE = ["static completeness over all call sites in the package (every catalogue member with a call site except 'render' and 'domains' is triggered through real documents instead)",
+OUTSIDE = ["static completeness over all call sites in the package (every catalogue member with a call site except 'render', 'domains' and 'html' (reachable only through a failing tokenizer, stubbed in C17) is triggered through real documents instead)",
            "Sphinx builders other than the dummy builder", "the untyped mathjax-override notice of sphinx_ext/mathjax.py (not a catalogue warning)"]
 STUBS = ["document.settings.env -> object with config.suppress_warnings (Sphinx branch)", "sphinx.util.logging.getLogger -> recording logger"]
 NONTRIVIAL_RULE = "paths on which the predicate was true for at least one entry and false for another, or a message was emitted"
@@ -199,6 +199,8 @@ DOCS = [
     ("topmatter", "---\na: [\n---\n\nbody\n"),
     ("topmatter", "---\nmyst:\n  nosuchfield: 1\n---\n\nbody\n"),
     ("substitution", "a {{ undefined_name }} b\n"),
+    ("topmatter", "---\nsubstitutions:\n  key: value\n---\n\nbody {{ key }}\n"),
+    ("topmatter", "---\nhtml_meta:\n  description: d\n---\n\nbody\n"),
     ("directive_option", "```{note}\n:nosuchoption: 1\n\nbody\n```\n"),
     ("directive_comments", "```{note}\n:class: x # comment\n\nbody\n```\n"),
     ("strikethrough", "a ~~b~~ c\n"),
@@ -211,7 +213,6 @@ DOCS = [
     ("iref_ambiguous", "<inv:#*>\n", {"myst_inventories": {"k": ["https://x.invalid/", "@INV@"]}}),
     ("directive_parse", "```{image} a.png\n\nbody\n```\n"),
     ("heading_slug", "# A\n\ntext\n", {"myst_heading_slug_func": int}),
-    ("html", '<div class="admonition">\n<![x\n</div>\n', {"myst_enable_extensions": ["html_admonition"]}),
 ]
 _INV = []
 
@@ -239,6 +240,14 @@ def _strip_tagged(doc, tag):
             m.parent.remove(m)
             n += 1
     return n
+
+
+def _tags_outside_catalogue(text):
+    import re
+    from myst_parser.warnings_ import MystWarnings
+
+    catalogue = {m.value for m in MystWarnings}
+    return sorted({t for t in re.findall(r"\[myst\.([^\]\n]+)\]", text) if t not in catalogue})
 
 
 def run_suppress_case(i, form, real=False):
@@ -288,6 +297,8 @@ def make_suppress(eng):
         except Exception as exc:  # noqa
             eng.fail("suppress-raises", "%s: %s" % (type(exc).__name__, exc))
         eng.require(had >= 1, "catalogue-tag-emitted", "document %r did not emit [%s]: %r" % (DOCS[i][1], tag, w1[:200]))
+        bad = _tags_outside_catalogue(w1 + p1)
+        eng.require(not bad, "tag-outside-catalogue", "document %r emitted MyST tag(s) outside the catalogue: %r" % (DOCS[i][1], bad))
         eng.require(("[%s]" % tag) not in w2, "suppressed-still-logged", w2[:200])
         eng.require(("[%s]" % tag) not in p2, "suppressed-still-in-doctree")
         if p1 != p2:
@@ -386,7 +397,7 @@ def make_sphinx(eng):
 
     CR.setup()
     if not SPX:
-        SPX.update(load_instrumented(["myst_parser.mdit_to_docutils.sphinx_", "myst_parser.parsers.sphinx_", "myst_parser.sphinx_ext.myst_refs", "myst_parser.sphinx_ext.main"]))
+        SPX.update(load_instrumented(["myst_parser.mdit_to_docutils.sphinx_", "myst_parser.parsers.sphinx_", "myst_parser.sphinx_ext.myst_refs", "myst_parser.sphinx_ext.main"], using=CR.R))
     c = CR.Choice(eng)
     state = {}
     eng.witness_fn = lambda m: dict(state)
@@ -457,6 +468,9 @@ def replay(label, witness):
             had, n, p1, p2, w1, w2, tag = run_suppress_case(witness["doc"], witness["form"], real=True)
         except Exception as e:  # noqa
             return ("C14/exception:%s" % type(e).__name__, "%r" % (e,))
+        bad = _tags_outside_catalogue(w1 + p1)
+        if bad:
+            return ("C14/tag-outside-catalogue", "document %r emitted MyST tag(s) outside the catalogue: %r" % (DOCS[witness["doc"]][1], bad))
         if had < 1:
             return ("C14/tag-not-emitted:%s" % tag, "document %r does not emit [%s]: %r" % (DOCS[witness["doc"]][1], tag, w1[:300]))
         if ("[%s]" % tag) in w2 or ("[%s]" % tag) in p2:
